@@ -43,6 +43,11 @@ var c13P2 = []scen.P2Config{
 	{Sizes: []int{11, 6}, Slice: 4, Blocks: 3, Class: "uniq"},
 	{Sizes: []int{16500, 4000}, Slice: 64, Blocks: 5, Class: "uniq", G: 2},
 	{Sizes: []int{11, 6}, Slice: 4, Blocks: 3, Class: "trailzero"}, // data files ending in zero bytes: truncation inside the zero padding of the last slice
+	// data files whose content also exists elsewhere in the set (a deleted or emptied file all of whose slices are still
+	// findable: nothing to reconstruct, but everything to rewrite); sets 2.. are damaged in their data files only
+	{Sizes: []int{9, 9}, Slice: 4, Blocks: 3, Class: "uniq", DupFile: true},
+	{Sizes: []int{13, 8, 6}, Slice: 4, Blocks: 2, Class: "dupslice"},
+	{Sizes: []int{8, 8}, Slice: 4, Blocks: 0, Class: "uniq", DupFile: true},
 }
 var c13P1 = []scen.P1Config{
 	{Sizes: []int{7, 5}, Volumes: 2},
@@ -193,7 +198,7 @@ func c13Gen(g *core.Gen) {
 		}
 		files := append([]string{s.Index}, s.RecFiles...)
 		files = append(files, s.Paths...)
-		if si == 2 {
+		if si >= 2 {
 			files = s.Paths // the index / recovery files of this shape are covered by set 0
 			for _, f := range files {
 				for n := 1; n <= 2*cfg.Slice+1; n++ {
@@ -202,7 +207,7 @@ func c13Gen(g *core.Gen) {
 			}
 		}
 		c13GenFormat(g, "p2", si, files, s.FS0.Files, s.Paths, si != 1, rpar2.PacketBoundaries)
-		if si == 2 {
+		if si >= 2 {
 			continue
 		}
 		// crash prefixes of Create
@@ -452,6 +457,17 @@ func c13RunP2(c *c13Case, r *core.Rec) {
 			}
 			if o.RepairErr == nil && !s.AllOriginal(o.After) {
 				r.Count("repair_nil_files_differ", 1)
+				// with the index and every recovery file exactly as Create wrote them there is no doubt about what the set
+				// is: a Repair that reports success has to leave every protected file original
+				setIntact := true
+				for _, p := range append([]string{s.Index}, s.RecFiles...) {
+					if b, ok := fs0.Get(p); !ok || !bytes.Equal(b, s.FS0.Files[p]) {
+						setIntact = false
+					}
+				}
+				if setIntact {
+					r.Violatef("repair-nil-but-files-differ", "Repair reported success on a set whose index and recovery files are untouched, but a protected file is not original afterwards (case %+v)", *c)
+				}
 			}
 		}
 		if o.VerifyErr != nil || o.RepairErr != nil || len(o.RepairedPaths) > 0 {
@@ -570,9 +586,9 @@ func init() {
 	core.Register(&core.Prop{
 		ID:    "C13",
 		Level: "fault_enumeration",
-		Rule: "for a small PAR2 set (2 files, slice 4, 3 blocks) and a small PAR1 set (2 files, 2 volumes): for EVERY file of the set (index, recovery/parity files, data files): truncation at every byte offset, every single-bit flip, garbage of 4 lengths, emptied, deleted; every subset of deleted files; pairs deletion+flip/truncation. " +
+		Rule: "for a small PAR2 set (2 files, slice 4, 3 blocks) and a small PAR1 set (2 files, 2 volumes): for EVERY file of the set (index, recovery/parity files, data files): truncation at every byte offset, every single-bit flip, garbage of 4 lengths, emptied, deleted; every subset of deleted files; pairs deletion+flip/truncation; the data-file part of that menu also on sets whose content exists twice (a duplicated file, duplicated slices, a set without recovery blocks) and on zero-tailed files. " +
 			"For larger sets (>16 KiB data, slice 64): truncation at every packet/entry boundary +-1 and header field, every header bit, every 97th payload bit. Crash part: every prefix of Create's recorded write sequence with the interrupted write torn at every byte (small) or every packet/field boundary (large), then Verify and Repair with data intact / one file deleted / one file bit-flipped. " +
-			"Oracle: no panic, no hang, error or result; usable data <= slices (files) whose content is present; usable recovery blocks <= distinct intact recovery packets found by a resynchronising reference scanner (PAR1: volumes that parse strictly with the original parity data); Repair writes only exact originals (C02 oracle); Verify writes nothing. non-trivial = fault changed the outcome (error or repair)",
+			"Oracle: no panic, no hang, error or result; usable data <= slices (files) whose content is present; usable recovery blocks <= distinct intact recovery packets found by a resynchronising reference scanner (PAR1: volumes that parse strictly with the original parity data); Repair writes only exact originals (C02 oracle); with the index and every recovery file untouched, a Repair that reports success leaves every protected file original; Verify writes nothing. non-trivial = fault changed the outcome (error or repair)",
 		Assumptions: []string{"an error is an acceptable answer to any corruption (the statement allows 'either an error or a result')"},
 		NewCase:     func() interface{} { return &c13Case{} },
 		Gen:         c13Gen,
